@@ -26,7 +26,7 @@ def explore(core, rng, tier, seed, search=False):
             for fill in range(cap + 1):
                 full = fill == cap
                 for peer in (0, 1, 2):
-                    for tmo in (0, 2):
+                    for tmo in (0, 2, -1, -3):   # non-positive (also strictly negative) = wait without limit
                         if tmo <= 0 and full and peer in (0, 2):
                             continue   # would block forever
                         sc.append("sendtimeout %d %d %d %d" % (cap, fill, tmo, peer))
@@ -37,7 +37,7 @@ def explore(core, rng, tier, seed, search=False):
                 for closed in (0, 1):
                     for peer in (0, 1):
                         if closed and peer: continue
-                        for tmo in (0, 2):
+                        for tmo in (0, 2, -1, -3):
                             if tmo <= 0 and fill == 0 and not closed and peer == 0:
                                 continue
                             sc.append("recvtimeout %d %d %d %d %d" % (cap, fill, closed, tmo, peer))
